@@ -93,7 +93,7 @@ fn c06_cfg(tier: Tier, index: u64) -> HistCfg {
     }
 }
 
-const C06_RULE: &str = "seeded random update histories on small maps with flush + independent decode after EVERY call (sizes biased to the shared large free list 1024..20000 and to class edges), plus cyclic workloads (a generated cycle of 5-40 calls repeated 20-120 times). Oracle per decoded state: slots tile [192, EOF) of the key and value file, every slot is live exactly once or on exactly one free list of its class, legal sizes; per call: a file is extended by a slot of size k only if no free slot acceptable for k (same exact class / large-list entry >= k) was free both before and after the call; per slot size s: slots(s) <= peak simultaneously live(s) + max(1, most allocations observed in one call); statistics calls are issued in the histories and must return (watchdog). evaluations counts histories, decoded_states counts images. Non-trivial: a free slot was reused (label free_slot_reused / large_slot_reused); distinct by case digest.";
+const C06_RULE: &str = "seeded random update histories on small maps with flush + independent decode after EVERY call (sizes biased to the shared large free list 1024..20000 and to class edges), plus cyclic workloads (a generated cycle of 5-40 calls repeated 20-120 times). Oracle per decoded state: slots tile [192, EOF) of the key and value file, every slot is live exactly once or on exactly one free list of its class, legal sizes; per call: a file is extended by a slot of size k only if no free slot acceptable for k (same exact class / large-list entry >= k) was free both before and after the call; per exact slot class s (16..896): slots(s) <= peak simultaneously live(s) + max(1, most allocations observed in one call); statistics calls are issued in the histories and must return (watchdog). evaluations counts histories, decoded_states counts images. Non-trivial: a free slot was reused (label free_slot_reused / large_slot_reused); distinct by case digest.";
 
 pub fn c06() -> HistProp {
     HistProp {
